@@ -93,7 +93,13 @@ pub enum Grouping {
 pub struct Q {
     pub aggs: Vec<(Func, bool)>,
     pub grouping: Grouping,
+    /// a constant WHERE condition (text, whether it is TRUE): an input the optimizer can empty at
+    /// plan time is still "an empty multiset of input rows" — one group without GROUP BY, none with
+    pub wher: Option<(&'static str, bool)>,
 }
+
+/// constant conditions (folded at plan time): FALSE, UNKNOWN and TRUE ones
+const CONST_WHERE: [(&str, bool); 5] = [("1 = 0", false), ("2 < 1 OR 3 < 2", false), ("NOT (1 = 1)", false), ("1 = NULL", false), ("1 = 1", true)];
 
 const FORMS: [(Func, bool); 11] = [
     (Func::CountStar, false),
@@ -121,11 +127,15 @@ impl Q {
     fn sql(&self, v: Variant) -> String {
         let vx = v.value_expr();
         let aggs = self.aggs.iter().map(|(f, d)| agg_sql(*f, *d, vx)).collect::<Vec<_>>().join(", ");
+        let w = match self.wher {
+            Some((c, _)) => format!(" WHERE {}", c),
+            None => String::new(),
+        };
         match self.grouping {
-            Grouping::None => format!("SELECT {} FROM g", aggs),
-            Grouping::K => format!("SELECT k, {} FROM g GROUP BY k", aggs),
-            Grouping::KX => format!("SELECT k, {}, {} FROM g GROUP BY k, {}", vx, aggs, vx),
-            Grouping::X => format!("SELECT {}, {} FROM g GROUP BY {}", vx, aggs, vx),
+            Grouping::None => format!("SELECT {} FROM g{}", aggs, w),
+            Grouping::K => format!("SELECT k, {} FROM g{} GROUP BY k", aggs, w),
+            Grouping::KX => format!("SELECT k, {}, {} FROM g{} GROUP BY k, {}", vx, aggs, w, vx),
+            Grouping::X => format!("SELECT {}, {} FROM g{} GROUP BY {}", vx, aggs, w, vx),
         }
     }
     fn shape(&self) -> String {
@@ -144,9 +154,16 @@ fn family(v: Variant) -> Vec<Q> {
         FORMS.iter().copied().filter(|(f, _)| v != Variant::Str || !matches!(f, Func::Sum | Func::Avg)).collect();
     for g in groupings {
         for form in &forms {
-            out.push(Q { aggs: vec![*form], grouping: *g });
+            out.push(Q { aggs: vec![*form], grouping: *g, wher: None });
         }
-        out.push(Q { aggs: forms.clone(), grouping: *g });
+        out.push(Q { aggs: forms.clone(), grouping: *g, wher: None });
+    }
+    // the same lists behind a constant WHERE condition (grouping none and k)
+    for g in &groupings[..2] {
+        for cw in CONST_WHERE {
+            out.push(Q { aggs: forms.clone(), grouping: *g, wher: Some(cw) });
+            out.push(Q { aggs: vec![(Func::CountStar, false)], grouping: *g, wher: Some(cw) });
+        }
     }
     out
 }
@@ -188,6 +205,8 @@ fn groups(v: Variant, keys: &[Vec<V>]) -> Vec<(Vec<V>, Vec<usize>)> {
 }
 
 fn reference(v: Variant, q: &Q, rows: &[Row]) -> Vec<Vec<V>> {
+    // a constant condition that is not TRUE leaves no input row
+    let rows: &[Row] = if matches!(q.wher, Some((_, false))) { &[] } else { rows };
     let keys: Vec<Vec<V>> = rows
         .iter()
         .map(|(k, x)| match q.grouping {
